@@ -141,7 +141,7 @@ func (cqi *ContinuousQueryInfo) Marshal() *proto2.ContinuousQueryInfo {
 	pb := &proto2.ContinuousQueryInfo{
 		Name:        proto.String(cqi.Name),
 		Query:       proto.String(cqi.Query),
-		LastRunTime: proto.Int64(cqi.LastRunTime.UnixNano()),
+		LastRunTime: proto.Int64(MarshalTime(cqi.LastRunTime)),
 	}
 
 	return pb
@@ -151,7 +151,7 @@ func (cqi *ContinuousQueryInfo) Marshal() *proto2.ContinuousQueryInfo {
 func (cqi *ContinuousQueryInfo) unmarshal(pb *proto2.ContinuousQueryInfo) {
 	cqi.Name = pb.GetName()
 	cqi.Query = pb.GetQuery()
-	cqi.LastRunTime = time.Unix(0, pb.GetLastRunTime())
+	cqi.LastRunTime = UnmarshalTime(pb.GetLastRunTime())
 }
 
 // Clone returns a deep copy of cqi.
@@ -161,5 +161,6 @@ func (cqi ContinuousQueryInfo) Clone() *ContinuousQueryInfo {
 }
 
 func (cqi *ContinuousQueryInfo) UpdateContinuousQueryStat(lastRun int64) {
-	cqi.LastRunTime = time.Unix(0, lastRun)
+	// same convention as the snapshot encoding (MarshalTime/UnmarshalTime): 0 means "never ran"
+	cqi.LastRunTime = UnmarshalTime(lastRun)
 }
